@@ -180,6 +180,12 @@ class Digits(ClassicalGate):
     def dagger(self):
         return Digits(*self.digits, dim=self.dim, _dagger=not self._dagger)
 
+    def subs(self, *args):
+        return self
+
+    def lambdify(self, *symbols, **kwargs):
+        return lambda *xs: self
+
 
 class Bits(Digits):
     """
